@@ -4,6 +4,7 @@ A project is described by a small abstract record (sources, libraries, executabl
 aliases, tests, options) from which (a) the build.bfg text and source tree are written and (b) the expectations the
 checks compare against (declared argument strings per step, declared dependency DAG) are derived."""
 import os
+import re
 from . import gen, shtools
 
 # characters that take part in known findings of C04 (file names) are kept out of *names* here; arguments are free
@@ -134,3 +135,122 @@ def generate(rng, rep=None, odd_names=False, n_exe=2, n_lib=1, with_commands=Tru
             children.append([shtools.ARGVREC] + cargs)
         p.steps.append({'kind': 'test_driver', 'args': ['driver'] + dargs, 'children': children})
     return p
+
+
+# ----------------------------------------------------------------------------- dependency-shape projects (C03)
+def generate_graph(rng, rep=None):
+    """A project made of the dependency shapes C03 quantifies over, every output explicitly named so that the declared
+    DAG can be written down next to the script: header FILE objects in includes= (source and generated headers) on
+    plain compiles and on a pch given by name, extra_deps= on compile / link / copy_file, libs= on a static library, an
+    object file shared by two executables, nested output directories, single- and multi-output build_steps and
+    consumers of their outputs.  Returns a Project whose .graph is a list of steps
+        {'out': primary output, 'outs': [...], 'consumes': [...], 'multi': bool}
+    where a consumed name is 'src:<path below srcdir>' or an output path below builddir."""
+    p = Project()
+    p.name = 'graph'
+    L, G = p.lines, []
+    p.graph = G
+    rec = shtools.ARGVREC
+    L.append("project('graph')")
+
+    def src(name, text='x\n'):
+        p.files[name] = text
+        return 'src:' + name
+
+    def coin(pr=0.5):
+        return rng.random() < pr
+
+    hdr = src('inc/h.h', '#define H 1\n')
+    L.append("hdr = header_file('inc/h.h')")
+    conf = None
+    if coin(0.8):
+        d = rng.choice(['gen', 'gen/deep'])
+        conf = d + '/conf.h'
+        L.append("conf = build_step(%r, cmd=[%r, '-o', %r, 'conf'], files=['conf.in'])" % (conf, rec, conf))
+        G.append({'out': conf, 'outs': [conf], 'consumes': [src('conf.in')], 'multi': False})
+    multi = None
+    if coin(0.8):
+        k = rng.choice([2, 3])
+        dirs = rng.choice([['gen'] * 3, ['gen', 'gen/m', 'gen'], ['m1', 'm2', 'm3']])
+        multi = ['%s/multi%d.txt' % (dirs[j], j) for j in range(k)]
+        L.append("bs = build_step(%r, cmd=[%r] + %r + ['multi'], files=['multi.in'])" % (
+            multi, rec, [x for o in multi for x in ('-o', o)]))
+        G.append({'out': multi[0], 'outs': multi, 'consumes': [src('multi.in')], 'multi': True})
+
+    def compile_step(var, out, source, with_pch=False):
+        incs, cons = [], [src(source, 'int %s(void) { return 0; }\n' % re.sub(r'\W', '_', out))]
+        if coin(0.7):
+            incs.append('hdr'); cons.append(hdr)
+        if conf and coin(0.6):
+            incs.append('conf'); cons.append(conf)
+        kw = ''
+        if coin(0.5):
+            dep = source + '.dep'
+            kw += ', extra_deps=[%r]' % dep
+            cons.append(src(dep))
+        if with_pch:
+            # pch given by NAME: the builtin creates the precompiled-header step, which consumes the same header objects
+            kw += ", pch='pch.h'"
+            G.append({'out': 'pch.h.gch', 'outs': ['pch.h.gch'], 'multi': False,
+                      'consumes': [src('pch.h', '#define P 1\n')] + [c for c in cons[1:] if not c.endswith('.dep')]})
+            cons.append('pch.h.gch')
+        L.append("%s = object_file(%r, file=%r, includes=[%s]%s)" % (var, out[:-2], source, ', '.join(incs), kw))
+        G.append({'out': out, 'outs': [out], 'consumes': cons, 'multi': False})
+        return out
+
+    shared_o = compile_step('shared_o', 'obj/common/shared.o', 'common/shared.c')
+    a_o = compile_step('a_o', 'obj/a.o', 'a.c')
+    b_o = compile_step('b_o', 'obj/nested/dir/b.o', 'lib/b.c')
+    e1_o = compile_step('e1_o', 'obj/e1.o', 'e1.c', with_pch=coin(0.7))
+    e2_o = compile_step('e2_o', 'obj/e2.o', 'e2.c')
+    L.append("la = static_library('lib/a', files=[a_o])")
+    G.append({'out': 'lib/liba.a', 'outs': ['lib/liba.a'], 'consumes': [a_o], 'multi': False})
+    # libs= on a static library: archiving b does not read liba.a; what links against b gets liba.a as well
+    L.append("lb = static_library('lib/nested/b', files=[b_o], libs=[la])")
+    G.append({'out': 'lib/nested/libb.a', 'outs': ['lib/nested/libb.a'], 'consumes': [b_o], 'multi': False,
+              'optional': ['lib/liba.a']})
+    kw, cons = '', [e1_o, shared_o, 'lib/nested/libb.a', 'lib/liba.a']
+    if coin(0.6):
+        kw = ", extra_deps=['e1.dep']"
+        cons.append(src('e1.dep'))
+    L.append("e1 = executable('bin/e1', files=[e1_o, shared_o], libs=[lb]%s)" % kw)
+    G.append({'out': 'bin/e1', 'outs': ['bin/e1'], 'consumes': cons, 'multi': False})
+    L.append("e2 = executable('bin/deep/e2', files=[e2_o, shared_o])")
+    G.append({'out': 'bin/deep/e2', 'outs': ['bin/deep/e2'], 'consumes': [e2_o, shared_o], 'multi': False})
+    defaults = ['e1', 'e2']
+    if coin(0.7):
+        kw, cons = '', [src('data.txt')]
+        if coin(0.6):
+            kw = ", extra_deps=['data.dep']"
+            cons.append(src('data.dep'))
+        L.append("cp = copy_file('out/a/copy.txt', 'data.txt'%s)" % kw)
+        G.append({'out': 'out/a/copy.txt', 'outs': ['out/a/copy.txt'], 'consumes': cons, 'multi': False})
+        defaults.append('cp')
+    if multi:
+        # consumers of single outputs of the multi-output step
+        for j in sorted(rng.sample(range(len(multi)), rng.randint(1, len(multi)))):
+            out = 'use/m%d.out' % j
+            if coin():
+                L.append("u%d = copy_file(%r, bs[%d])" % (j, out, j))
+            else:
+                L.append("u%d = build_step(%r, cmd=[%r, '-o', %r, 'use', bs[%d]])" % (j, out, rec, out, j))
+            G.append({'out': out, 'outs': [out], 'consumes': [multi[j]], 'multi': False})
+            defaults.append('u%d' % j)
+        if coin(0.4):
+            defaults.append('*bs')
+    L.append("default(%s)" % ', '.join(defaults))
+    return p
+
+
+def graph_downstream(graph, name):
+    """Primary outputs of the steps that must re-run when `name` changes, from the declared DAG alone."""
+    dirty, changed = {name}, True
+    ran = set()
+    while changed:
+        changed = False
+        for st in graph:
+            if st['out'] not in ran and dirty & set(st['consumes']):
+                ran.add(st['out'])
+                dirty |= set(st['outs'])
+                changed = True
+    return ran
